@@ -1,4 +1,5 @@
 //! the swarm harness as a library: other harness crates (h_sw_b for C08) emit Swarm-level cases through it
 pub mod c13;
+pub mod c13b;
 pub mod core;
 pub mod sim;
